@@ -116,6 +116,28 @@ func envInt(name string, def int) int {
 
 var leaked int
 
+// panicRaisedBySystem reports whether the innermost non-runtime frame below
+// the panic in a stack dump belongs to the repository under test rather than
+// to the simulator or a world.
+func panicRaisedBySystem(stack string) bool {
+	lines := strings.Split(stack, "\n")
+	seenPanic := false
+	for _, l := range lines {
+		if strings.HasPrefix(l, "\t") || l == "" {
+			continue
+		}
+		if !seenPanic {
+			seenPanic = strings.HasPrefix(l, "panic(")
+			continue
+		}
+		if strings.HasPrefix(l, "runtime.") || strings.HasPrefix(l, "panic(") {
+			continue
+		}
+		return strings.HasPrefix(l, "github.com/buildbarn/bb-remote-execution/") && !strings.Contains(l, "/pkg/verifsim/")
+	}
+	return false
+}
+
 // Exec runs one world once inside a fresh bubble.
 func Exec(t *testing.T, w World, prop, tier string, tape *simsync.Tape, trace bool, counters map[string]int, states map[string]struct{}) (res Result, k *simsync.Kernel, run *Run) {
 	func() {
@@ -146,8 +168,14 @@ func Exec(t *testing.T, w World, prop, tier string, tape *simsync.Tape, trace bo
 				if r != nil {
 					if he, ok := r.(simsync.HarnessError); ok {
 						res.Harness = he.Msg
+					} else if st := string(debug.Stack()); panicRaisedBySystem(st) {
+						// The controller called into the system under test
+						// (an oracle reading state back, an end-of-run call)
+						// and the system's own code panicked.
+						msg := fmt.Sprint(r)
+						k.Violate("panic:"+strings.SplitN(msg, "\n", 2)[0], fmt.Sprintf("code of the system under test panicked while called from the controller goroutine: %s\n%s", msg, st))
 					} else {
-						res.Harness = fmt.Sprintf("panic on the controller goroutine: %v\n%s", r, debug.Stack())
+						res.Harness = fmt.Sprintf("panic on the controller goroutine: %v\n%s", r, st)
 					}
 				}
 				func() {
